@@ -267,11 +267,13 @@ def gen_layout(rng):
     used = set()
 
     def add(name, b):
-        if name in used or name == '':
+        if name == '':
             return False
-        # a file may not also be a directory of another entry
+        a = name.rstrip('/')
         for u in used:
-            if u.startswith(name + '/') or name.startswith(u.rstrip('/') + '/') and not u.endswith('/'):
+            v = u.rstrip('/')
+            # a file may not also be a directory of another entry
+            if a == v or (v.startswith(a + '/') and not name.endswith('/')) or (a.startswith(v + '/') and not u.endswith('/')):
                 return False
         used.add(name)
         entries.append([name, b])
@@ -366,51 +368,54 @@ DOC_SOURCES = ('path', 'bpath', 'relpath', 'bio', 'fobj')
 
 
 class World(object):
-    """a layout written to disk (tree + zip file) under a private temp dir"""
+    """a layout as zip bytes and as a disk tree: root/t/<entries> is the tree, root/z/pack.zae the archive with
+    different files of the same names next to it. Paths are kept relative to `root` until `materialize`."""
 
-    def __init__(self, layout, tmp):
+    def __init__(self, layout):
         self.layout = layout
         self.blobs = [b.encode('latin-1') for b in layout['blobs']]
         self.byid = {}
         for i, b in enumerate(self.blobs):
             self.byid.setdefault(b, i)
         self.entries = [(n, b) for n, b in layout['entries']]
+        self.member = dict(self.entries)
         self.names = [n for n, _ in self.entries]
-        self.root = os.path.join(tmp, 'r0', 'r1', 'r2')
-        self.tree = os.path.join(self.root, 't')
-        self.zdir = os.path.join(self.root, 'z')
-        os.makedirs(self.tree)
-        os.makedirs(self.zdir)
-        self.disk = []   # (absolute path, blob id) of every regular file written
+        self.root = None
+        self.ref = {}
+        self.files = []   # (path relative to root, blob id) of every regular file
+        self.dirs = []
+        docblobs = set(int(k) for k in layout['docs'])
+        for n, b in self.entries:
+            if n.endswith('/'):
+                self.dirs.append('t/' + n)
+                continue
+            self.files.append(('t/' + n, b))
+            if b not in docblobs:
+                # the zip resolver must not read these
+                self.blobs.append(b'DISK-NOT-ZIP:' + self.blobs[b])
+                self.byid.setdefault(self.blobs[-1], len(self.blobs) - 1)
+                self.files.append(('z/' + n, len(self.blobs) - 1))
         buf = io.BytesIO()
         with zipfile.ZipFile(buf, 'w') as z:
             for n, b in self.entries:
                 z.writestr(n, self.blobs[b])
         self.zbytes = buf.getvalue()
-        for n, b in self.entries:
-            self._write(os.path.join(self.tree, n), b, n.endswith('/'))
-            # different files of the same names next to the zip file: the zip resolver must not read them
-            if not n.endswith('/') and b not in [int(k) for k in layout['docs']]:
-                self.blobs.append(b'DISK-NOT-ZIP:' + self.blobs[b])
-                self.byid.setdefault(self.blobs[-1], len(self.blobs) - 1)
-                self._write(os.path.join(self.zdir, n), len(self.blobs) - 1, False)
-        self.zpath = os.path.join(self.zdir, 'pack.zae')
+
+    def materialize(self, tmp):
+        self.root = os.path.join(tmp, 'r0', 'r1', 'r2')
+        self.tree = os.path.join(self.root, 't')
+        self.zpath = os.path.join(self.root, 'z', 'pack.zae')
+        os.makedirs(self.tree)
+        os.makedirs(os.path.join(self.root, 'z'))
+        for d in self.dirs:
+            os.makedirs(os.path.join(self.root, d), exist_ok=True)
+        for p, b in self.files:
+            path = os.path.join(self.root, p)
+            os.makedirs(os.path.dirname(path), exist_ok=True)
+            with open(path, 'wb') as f:
+                f.write(self.blobs[b])
         with open(self.zpath, 'wb') as f:
             f.write(self.zbytes)
-
-    def _write(self, path, b, isdir):
-        if isdir:
-            os.makedirs(path, exist_ok=True)
-            return
-        os.makedirs(os.path.dirname(path), exist_ok=True)
-        with open(path, 'wb') as f:
-            f.write(self.blobs[b])
-        self.disk.append((path, b))
-
-    def sym(self, path):
-        """absolute path with the random temp root replaced by /R (what the model sees)"""
-        assert path.startswith(self.root)
-        return '/R' + path[len(self.root):]
 
 
 def loader_table(world, run):
@@ -458,7 +463,7 @@ def real_run(world, run):
             else:
                 arg = p
         elif src == 'bio':
-            arg = io.BytesIO(world.blobs[dict(world.entries)[run['doc']]])
+            arg = io.BytesIO(world.blobs[world.member[run['doc']]])
         elif src == 'zbio':
             arg = io.BytesIO(world.zbytes)
         elif src == 'zpath':
@@ -484,8 +489,6 @@ def real_run(world, run):
                 d = im.data
             except common.DaeError as e:
                 acc = 'r' + type(e).__name__.replace('Dae', '').replace('Error', '')
-                if not c.errors[nerr:] or not isinstance(c.errors[-1], common.DaeBrokenRefError):
-                    res['errs_ok'] = False
             except Exception as e:
                 acc = 'raw:' + type(e).__name__
             else:
@@ -511,46 +514,43 @@ def real_run(world, run):
             os.chdir(cwd)
 
 
-_REF = {}
-
-
 def reference(world, blob, ig):
     """outcome of loading the plain bytes of `blob` from a BytesIO: snapshot or error class"""
     import collada
     from collada import common
-    key = (id(world), blob, ig)
-    if key not in _REF:
+    key = (blob, ig)
+    if key not in world.ref:
         ignore = IGNORES[ig]
         ignore = None if ignore is None else [getattr(common, n) for n in ignore]
         try:
             c = collada.Collada(io.BytesIO(world.blobs[blob]), ignore=ignore)
-            _REF[key] = ('ok', snapshot(c))
+            world.ref[key] = ('ok', snapshot(c))
         except common.DaeError as e:
-            _REF[key] = (type(e).__name__, None)
+            world.ref[key] = (type(e).__name__, None)
         except Exception as e:
-            _REF[key] = ('raw:' + type(e).__name__, None)
-    return _REF[key]
+            world.ref[key] = ('raw:' + type(e).__name__, None)
+    return world.ref[key]
 
 
 # ----------------------------------------------------------------------------- model line
 
 def model_line(world, run, all_imgs):
     src = run['src']
-    if src in ('path', 'bpath', 'fobj', 'bio', 'relpath'):
-        payload = 'd=%d' % dict(world.entries)[run['doc']]
+    if src in DOC_SOURCES:
+        payload = 'd=%d' % world.member[run['doc']]
     else:
         payload = 'z=' + pairs(world.entries)
     fs = '.'
     if src in ('path', 'bpath'):
-        origin = 'p=' + enc(world.sym(os.path.join(world.tree, run['doc'])))
-        fs = pairs([(world.sym(p), b) for p, b in world.disk]) or '.'
+        origin = 'p=' + enc('/R/t/' + run['doc'])
+        fs = pairs([('/R/' + p, b) for p, b in world.files]) or '.'
     elif src == 'relpath':
-        cwd = os.path.join(world.tree, run['cwd']) if run['cwd'] else world.tree
-        origin = 'p=' + enc(os.path.relpath(os.path.join(world.tree, run['doc']), cwd))
-        fs = pairs([(os.path.relpath(p, cwd), b) for p, b in world.disk]) or '.'
+        cwd = '/R/t/' + run['cwd'] if run['cwd'] else '/R/t'
+        origin = 'p=' + enc(posixpath.relpath('/R/t/' + run['doc'], cwd))
+        fs = pairs([(posixpath.relpath('/R/' + p, cwd), b) for p, b in world.files]) or '.'
     elif src == 'zpath':
-        origin = 'p=' + enc(world.sym(world.zpath))
-        fs = pairs([(world.sym(p), b) for p, b in world.disk]) or '.'
+        origin = 'p=' + enc('/R/z/pack.zae')
+        fs = pairs([('/R/' + p, b) for p, b in world.files]) or '.'
     else:
         origin = 'f'
     zf = '-' if run['zf'] is None else '=' + enc(run['zf'])
@@ -625,7 +625,7 @@ def oracle(world, run, res):
                     return ('select:auto:not-a-document', 'archive %s: automatically selected %r, which is not one of the genuine '
                             'documents %s' % (names, member, exp[1]))
             else:
-                outs = [reference(world, dict(world.entries)[m], ig)[0] for m in exp[1]]
+                outs = [reference(world, world.member[m], ig)[0] for m in exp[1]]
                 if res['outcome'] not in outs:
                     return ('select:auto:outcome', 'archive %s: outcome %s but the genuine documents %s load as %s'
                             % (names, res['outcome'], exp[1], outs))
@@ -637,10 +637,10 @@ def oracle(world, run, res):
                         'archive %s zip_filename=%r: selected %r, expected %r' % (names, run['zf'], res['member'], exp))
         if member not in names:
             return ('select:not-a-member', 'archive %s: Collada.filename is %r' % (names, member))
-        blob = dict(world.entries)[member]
+        blob = world.member[member]
     else:
         member = run['doc']
-        blob = dict(world.entries)[member]
+        blob = world.member[member]
     ref = reference(world, blob, ig)
     if res['outcome'] != ref[0]:
         return ('model:%s:outcome' % src, 'loading %r from %s gave %s but the same bytes from BytesIO give %s'
@@ -663,14 +663,14 @@ def oracle(world, run, res):
             kind = 'zip'
             want = miss
             if tgt is not None and tgt in names and not tgt.endswith('/'):
-                want = 'd%d' % world.byid[world.blobs[dict(world.entries)[tgt]]]
+                want = 'd%d' % world.byid[world.blobs[world.member[tgt]]]
         elif src in ('path', 'bpath', 'relpath'):
             base = os.path.join(world.tree, member)
             tgt = naive_resolve(base, path)
             kind = 'disk'
             want = miss
             if tgt is not None:
-                hit = [b for p, b in world.disk if p == '/' + tgt]
+                hit = [b for p, b in world.files if os.path.join(world.root, p) == '/' + tgt]
                 if hit:
                     want = 'd%d' % world.byid[world.blobs[hit[0]]]
         else:
@@ -679,7 +679,7 @@ def oracle(world, run, res):
         if acc != want:
             got = acc if acc.startswith(('raw:', 'r')) or acc == 'e' else 'data'
             exp_s = want if want in ('e', 'rBrokenRef') else 'data'
-            return ('aux:%s:%s:%s:%s->%s' % (src, kind, form_of(path), exp_s, got),
+            return ('aux:%s:%s:%s->%s' % (src, kind, exp_s, got),
                     'document %r loaded from %s (loader=%s, ignore=%s): image path %r should give %s but the first '
                     'CImage.data access gave %s' % (member, src, table is not None, IGNORES[ig], path,
                                                    _say(world, want), _say(world, acc)))
@@ -764,7 +764,8 @@ def execute(layout, runs, imgs, tmp, model=None):
     """-> list of (run, res, oracle verdict, correspondence verdict)"""
     d = tempfile.mkdtemp(dir=tmp)
     try:
-        world = World(layout, d)
+        world = World(layout)
+        world.materialize(d)
         out = []
         for i, run in enumerate(runs):
             res = real_run(world, run)
@@ -775,18 +776,12 @@ def execute(layout, runs, imgs, tmp, model=None):
             out.append((run, res, bad, corr))
         return out
     finally:
-        for k in [k for k in _REF if k[0] == id(world)] if 'world' in dir() else []:
-            del _REF[k]
         shutil.rmtree(d, ignore_errors=True)
 
 
-def lines_for(layout, runs, imgs, tmp):
-    d = tempfile.mkdtemp(dir=tmp)
-    try:
-        world = World(layout, d)
-        return [model_line(world, run, imgs) for run in runs]
-    finally:
-        shutil.rmtree(d, ignore_errors=True)
+def lines_for(layout, runs, imgs):
+    world = World(layout)
+    return [model_line(world, run, imgs) for run in runs]
 
 
 def fails(layout, run, imgs, tmp, sig):
@@ -891,7 +886,7 @@ def run(ctx):
 
 def _run(ctx, tmp):
     rng = ctx.rng
-    nlay = ctx.n(110, 4000)
+    nlay = ctx.n(260, 5000)
     work = []   # (layout, runs, imgs)
     for i in range(nlay):
         lay = gen_layout(rng)
@@ -905,7 +900,7 @@ def _run(ctx, tmp):
         work.append((lay, runs, ['./t0.png']))
     lines = []
     for lay, runs, imgs in work:
-        lines.extend(lines_for(lay, runs, imgs, tmp))
+        lines.extend(lines_for(lay, runs, imgs))
     plines, pwant = path_stream(rng, ctx.n(3000, 60000))
     model = None
     if ctx.lean_ok:
@@ -942,7 +937,8 @@ def _run(ctx, tmp):
                         ctx.count('member:not-lowercase-.dae')
             for path, acc in res.get('imgs', []):
                 kind = 'loader' if run['loader'] is not None else 'zip' if zipsrc else 'disk' if run['src'] in ('path', 'bpath', 'relpath') else 'none'
-                ctx.count('img:%s:%s:%s' % (kind, form_of(path), 'data' if acc.startswith('d') else acc))
+                ctx.count('img:%s:%s' % (kind, 'data' if acc.startswith('d') else acc))
+                ctx.count('imgform:%s:%s' % (form_of(path), 'found' if acc.startswith('d') else 'missing'))
             if bad is not None:
                 if bad[0] not in reported:
                     reported.add(bad[0])
